@@ -56,6 +56,24 @@ fn edit_features(edits: &[&Edit]) -> String {
 }
 
 #[allow(clippy::too_many_arguments)]
+/// the implicit variant index of a (top-level) enum is one byte up to 256 variants and two
+/// beyond: appending the 257th variant changes the width for every version. The model's
+/// versioned codec mirrors that (it is the wire format), the documented meaning of "append a
+/// variant" does not; the self-consistency check of the model is skipped for such pairs and the
+/// implementation is judged against the documented meaning.
+fn index_width_changed(a: &Ty, n: &Ty) -> bool {
+    fn w(t: &Ty) -> Option<usize> {
+        match t {
+            Ty::Def(d) => match &d.kind {
+                vmodel::ty::DefKind::Enum(e) => Some(e.wire_width()),
+                _ => None,
+            },
+            _ => None,
+        }
+    }
+    w(a) != w(n)
+}
+
 fn fail(
     out: &mut Vec<Finding>,
     props: &'static [&'static str],
@@ -88,6 +106,7 @@ fn fail(
                 ("type_features", n.ty.feature_string()),
                 ("container", format!("{:?}", c)),
                 ("base", n.base.to_string()),
+                ("index_width_changed", if index_width_changed(&a.ty, &n.ty) { "yes" } else { "no" }.to_string()),
             ]),
             summary: format!(
                 "{} (v{}) <- {} (v{}) via [{}] {:?}: {}",
@@ -126,6 +145,7 @@ pub fn check_load(h: &Hist, node: usize, anc: usize, a_val: &Val, containers: &[
     };
     match decode(&n.ty, &abytes, a.depth) {
         Ok((v, used)) if used == abytes.len() && canon(&n.ty, &v) == expected => {}
+        _ if index_width_changed(&a.ty, &n.ty) => {}
         other => vcommon::machinery_error(&format!(
             "model inconsistent: decode(N, encode(A,a,k), k) = {:?} but step-wise upgrade = {:?} for {} <- {}",
             other,
@@ -264,6 +284,7 @@ pub fn check_write_old(h: &Hist, node: usize, anc: usize, x: &Val, x2: &Val, out
     // model self-consistency: the newest definition's versioned encoding equals the old encoding
     match encode(&n.ty, x, k) {
         Ok(b) if b.bytes == want => {}
+        _ if index_width_changed(&a.ty, &n.ty) => {}
         other => vcommon::machinery_error(&format!(
             "model inconsistent: encode(N,x,k) {:?} vs encode(A,down(x),k) {} for {} -> {}",
             other.map(|b| hex(&b.bytes)),
@@ -364,7 +385,12 @@ pub fn hist_item(h: &Hist, node: usize, which: &str, thorough: bool, d: &mut Dri
             let vals = vmodel::values::values(&h.nodes[anc].ty, cap);
             for v in &vals {
                 if state(d, "hist_load", h, node, anc, v) {
-                    check_load(h, node, anc, v, &[Container::Plain, Container::NoSchema, Container::Bare], &mut out, st);
+                    let cs: &[Container] = if thorough {
+                        &[Container::Plain, Container::NoSchema, Container::Bare, Container::Compressed, Container::Encrypted]
+                    } else {
+                        &[Container::Plain, Container::NoSchema, Container::Bare, Container::Compressed]
+                    };
+                    check_load(h, node, anc, v, cs, &mut out, st);
                     for f in out.drain(..) {
                         (d.emit)(f);
                     }
